@@ -35,6 +35,23 @@ func lcg(b []byte, seed uint32) {
 func testProfile(n int, kind string) []byte {
 	b := make([]byte, n)
 	switch kind {
+	case "icc", "icc-size-short", "icc-size-long", "icc-size-128":
+		// looks like a real profile: valid header and tag table, rest incompressible
+		lcg(b, uint32(n)+3)
+		if n >= 132 {
+			copy(b, gen.ICCHeader(4))
+			sz := uint32(n)
+			switch kind {
+			case "icc-size-short":
+				sz = uint32(n - 1 - n/3)
+			case "icc-size-long":
+				sz = uint32(n + 1000)
+			case "icc-size-128":
+				sz = 128
+			}
+			b[0], b[1], b[2], b[3] = byte(sz>>24), byte(sz>>16), byte(sz>>8), byte(sz)
+			b[128], b[129], b[130], b[131] = 0, 0, 0, 0
+		}
 	case "zeros":
 	case "ramp":
 		for i := range b {
@@ -190,6 +207,12 @@ func jpegSegByName(name string) gen.JPEGSeg {
 		return gen.JPEGSeg{Marker: 0xEE, Data: []byte("Adobe\x00\x64\x00\x00\x00\x00\x01")}
 	case "APP15":
 		return gen.JPEGSeg{Marker: 0xEF, Data: []byte("fifteen")}
+	case "APP2icc12":
+		return gen.JPEGSeg{Marker: 0xE2, Data: []byte("ICC_PROFILE\x00")}
+	case "APP2icc13":
+		return gen.JPEGSeg{Marker: 0xE2, Data: []byte("ICC_PROFILE\x00\x01")}
+	case "APP2empty":
+		return gen.JPEGSeg{Marker: 0xE2, Data: nil}
 	case "COM":
 		return gen.JPEGSeg{Marker: 0xFE, Data: []byte("a comment \xff\xd8 with marker-like bytes")}
 	case "DQT":
@@ -266,6 +289,13 @@ func jpegGrammar(depthBefore, depthAfter int, each func(Case)) {
 				sof = 0xC2
 			}
 			each(mk(sof, std3, b, a, uint16(100+bi%50), uint16(60+ai%40)))
+		}
+	}
+	// degenerate but legal APP2 payloads
+	for _, s := range []string{"APP2icc12", "APP2icc13", "APP2empty"} {
+		for _, sof := range []byte{0xC0, 0xC2} {
+			each(mk(sof, std3, []string{"APP0", s}, nil, 222, 111))
+			each(mk(sof, std3, []string{"APP0"}, []string{s, "DHT"}, 222, 111))
 		}
 	}
 	// every APPn marker, alone
